@@ -399,6 +399,78 @@ def scripted_reorg(ck, tier):
                                      'refused', dict(rp, kind='poolinv'))
 
 
+def scripted_rollback(ck, tier):
+    """(a) a block taken unvalidated from a bulk download is the head; a transaction spending one of ITS outputs is admitted;
+    a relayed block that breaks a rule makes the node fall back to its last validated state: the transaction is evicted with
+    the block it depended on.  (b) refusing an invalid transaction does not depend on the debugging dump succeeding: with the
+    disk full (OSError from the dump) invalid transactions are still refused"""
+    import mutators
+    from skepticoin.networking import messages as M
+    rng = ck.rng
+    keys = chaingen.Keys()
+    for trial in range(2 if tier == 'quick' else 8):
+        with chaingen.Env(period=50) as env:
+            tg = chaingen.TreeGen(env, keys, rng)
+            n = tg.genesis
+            for _ in range(3):
+                n = tg.extend(n, txs=[], fees=0, dt=100)
+            main = list(tg.nodes)
+            with simnet.Net(seed=rng.getrandbits(30), t0=n.view.time + 5000) as net:
+                sn = nodeharness.SingleNode(net, chaingen.impl_state_from(main), [m.block for m in main[1:]], npeers=2)
+                sn.new_messages()
+                cm = sn.lp().chain_manager
+                x = tg.extend(n, txs=[], fees=0, dt=100, miner=keys.pks[0])
+                sn.deliver(0, M.DataMessage(M.DATA_BLOCK, x.block), irt=61)            # reply during a bulk download
+                cbx = x.view.txs[0]
+                t = chaingen.signed_tx(keys, x.utxo, [(cbx.id, 0)], [(cbx.outputs[0][0], keys.pks[1])])
+                sn.deliver(1, M.DataMessage(M.DATA_TRANSACTION, t))
+                admitted = t in cm.transaction_pool
+                bad = [c for c in mutators.mutants(tg, x, rng, tags=('C02',)) if c['label'] == 'reward-plus-one']
+                if not admitted or not bad or bytes(cm.coinstate.current_chain_hash) != x.id:
+                    ck.count('scripted-rollback-skipped')
+                    continue
+                net.clock.t = max(net.clock.t, bad[0]['now'])
+                sn.deliver(1, M.DataMessage(M.DATA_BLOCK, bad[0]['block']))
+                hd = bytes(cm.coinstate.current_chain_hash)
+                ck.case(('scripted-rollback', trial), kind='rollback-evicts-dependent-transaction')
+                hd_node = [m for m in tg.nodes if m.id == hd]
+                if hd_node:
+                    for p_ in list(cm.transaction_pool):
+                        tvv = spec.TxView(p_)
+                        if not (spec_tx_by_itself(tvv) and spec_tx_in_state(tvv, hd_node[0].utxo)):
+                            ck.violation('pooled-tx-invalid-at-head', 'after the node fell back to its last validated state (a relayed '
+                                         'block broke a rule while an unvalidated bulk-download block was the head), a pending '
+                                         'transaction that spends an output of the dropped block is still pending',
+                                         {'scripted': 'bulk-download head | dependent tx | rule-breaking relayed block', 'trial': trial, 'kind': 'poolinv'})
+                            break
+                # (b) the debugging dump fails while invalid transactions are being refused
+                di = sn.lp().disk_interface
+                orig_dump = di.save_transaction_for_debugging
+
+                def failing_dump(transaction):
+                    raise OSError(28, 'No space left on device')
+                di.save_transaction_for_debugging = failing_dump
+                try:
+                    hd_n = hd_node[0] if hd_node else n
+                    av = sorted(tg.spendable(hd_n))
+                    if av:
+                        wrong = [pk for pk in keys.pks if pk != av[0][1][1]][0]
+                        invalid = [chaingen.signed_tx(keys, hd_n.utxo, [av[0][0]], [(av[0][1][0], keys.pks[1])], sign_with={av[0][0]: wrong}),
+                                   chaingen.signed_tx(keys, {(b'\x07' * 32, 0): (5, keys.pks[0])}, [(b'\x07' * 32, 0)], [(5, keys.pks[1])])]
+                        for it_ in invalid:
+                            alive = [i for i in range(len(sn.peers)) if sn.connected(i)]
+                            if not alive:
+                                break
+                            sn.deliver(alive[0], M.DataMessage(M.DATA_TRANSACTION, it_))
+                            ck.case(('dump-fails', trial, spec.sha256d(it_.serialize())), kind='invalid-tx-while-debug-dump-fails')
+                            if any(spec.sha256d(p_.serialize()) == spec.sha256d(it_.serialize()) for p_ in cm.transaction_pool):
+                                ck.violation('invalid-tx-admitted', 'an invalid transaction was admitted to the pool because dumping it for '
+                                             'debugging failed (no space left on device)', {'scripted': 'debug dump fails', 'trial': trial, 'kind': 'poolinv'})
+                                break
+                finally:
+                    di.save_transaction_for_debugging = orig_dump
+
+
 def run(tier, seed):
     ck = common.Check('C13', tier, seed)
     ck.rule = ('one real node (ChainManager, handlers, real store) with scripted peers; random interleavings of transaction '
@@ -428,6 +500,13 @@ def run(tier, seed):
                 continue
             reqs.append(req)
             obs.append(observed)
+    try:
+        scripted_rollback(ck, tier)
+    except Exception:
+        import traceback
+        tb = traceback.format_exc()
+        if 'could not mine a block' not in tb:
+            ck.disagree('scripted rollback scenario crashed: %s' % tb[-500:], {})
     try:
         scripted_reorg(ck, tier)
     except Exception:
